@@ -142,6 +142,11 @@ func runC15(t *testing.T, c simrt.Chooser, o Opts) *Out {
 		w2.NicStallEvery = 1 + p.n("stallevery", 9)
 		w2.NicStallFor = p.dur("stallfor", time.Microsecond, 4*w/time.Duration(n)+time.Millisecond).String()
 	}
+	if p.pct("nicerr", 20) {
+		// a write that fails is still a probe that was charged to the limiter; the pace of the others
+		// must not change because of it
+		w2.NicErrEvery = 2 + p.n("nicerrevery", 9)
+	}
 	sc.Pkt = ps
 	cr := runPacketScenario(t, c, o, ps)
 	out.Res = &cr.Res
